@@ -5,7 +5,7 @@
  * fd 0: control pipe (read)  fd 3: report pipe (write)  fd 4: scratch regular file (optional)
  * Every report line is "<tag> <value>\n", written with one write(2) *before* the action it
  * announces, so that what ended the process is kernel truth and not an assumption:
- *   start 0 | raising s | survived s | exiting n | ready 0 | efbig n | ...
+ *   start 0 | ign s (signal s ignored on entry) | raising s | survived s | exiting n | ready 0 | efbig n | ...
  *
  * modes
  *   exit n                         exit(n)
@@ -81,6 +81,18 @@ static void all_default(void)
 		syscall(SYS_rt_sigaction, (long)s, &sa, NULL, 8L);
 	sigemptyset(&m);
 	syscall(SYS_rt_sigprocmask, (long)SIG_SETMASK, &m, NULL, 8L);
+}
+
+/* the signal dispositions this program was started with are part of its start state: one line
+ * "ign s" per signal that is ignored on entry (SIG_IGN survives fork and execve) */
+static void report_inherited(void)
+{
+	struct { void *h; unsigned long f; void *r; unsigned long m; } old;
+	for (int s = 1; s <= 64; s++) {
+		memset(&old, 0, sizeof old);
+		if (syscall(SYS_rt_sigaction, (long)s, NULL, &old, 8L) == 0 && old.h == (void *)SIG_IGN)
+			rep("ign", s);
+	}
 }
 
 static long long cpu_ms(void)
@@ -342,8 +354,12 @@ int main(int argc, char **argv)
 		die(0);
 	}
 
-	all_default();
 	rep("start", 0);
+	report_inherited();
+	/* the status probes (C09) make their attempts with every disposition at its default; the limit
+	 * programs (C08) keep what they inherited, like any program that installs no handlers */
+	if (!strcmp(mode, "exit") || !strcmp(mode, "raise") || !strcmp(mode, "fault") || !strcmp(mode, "sys") || !strcmp(mode, "ext"))
+		all_default();
 	do_child(getenv("LIMITS_CHILD"));
 	if (!strcmp(mode, "raise") || !strcmp(mode, "fault") || !strcmp(mode, "sys"))
 		core_witness();
